@@ -24,13 +24,58 @@ let roots ver (ops : op list) =
 
 let rec take n l = if n <= 0 then [] else match l with [] -> [] | x :: r -> x :: take (n - 1) r
 
+(* ---------------- coverage of the encoder's case splits (tags only) ----------------
+   walks the model trie at the last Hash(): node variant x partial-key length relative to the header
+   escape (below / at / above the mask, at or above mask+255), encoded length of every child around the
+   32-byte inline threshold, SCALE length mode of inlined values, children indices used *)
+let cover_trie ver (t : trie) : string list =
+  let tags = ref [] in
+  let add s = if not (List.mem s !tags) then tags := s :: !tags in
+  let pkclass mask n =
+    if n < mask then (if n = mask - 1 then "pk=mask-1" else "pk<mask")
+    else if n = mask then "pk=mask" else if n = mask + 1 then "pk=mask+1"
+    else if n < mask + 254 then "pk>mask" else if n <= mask + 256 then "pk~mask+255" else "pk>>mask" in
+  let vmode v = let l = List.length v in
+    if must_be_hashed ver v then "val-hashed" else if l = 0 then "val-empty" else if l < 64 then "val-len1"
+    else if l < 16384 then "val-len2" else "val-len4" in
+  let rec go is_root (n : tnode) =
+    (match n with
+     | Leaf (pk, v) ->
+       let h = must_be_hashed ver v in
+       add ((if h then "enc:leaf-hashed:" ^ pkclass 31 (List.length pk) else "enc:leaf:" ^ pkclass 63 (List.length pk)));
+       add ("enc:" ^ vmode v)
+     | Branch (pk, ov, cs) ->
+       (match ov with
+        | None -> add ("enc:branch:" ^ pkclass 63 (List.length pk))
+        | Some v ->
+          add ((if must_be_hashed ver v then "enc:branch-hashed:" ^ pkclass 15 (List.length pk)
+                else "enc:branch-value:" ^ pkclass 63 (List.length pk)));
+          add ("enc:" ^ vmode v));
+       let used = List.length (List.filter (fun c -> c <> None) cs) in
+       add (if used >= 9 then "enc:children>=9" else if used >= 3 then "enc:children3-8" else "enc:children<=2");
+       List.iteri (fun i c -> match c with
+         | Some ch ->
+           if i >= 8 then add "enc:bitmap-high-byte" else add "enc:bitmap-low-byte";
+           (match ch with
+            | Leaf _ ->
+              let l = List.length (enc blake2b_256 ver ch) in
+              if l = 31 then add "enc:child=31" else if l = 32 then add "enc:child=32" else if l = 33 then add "enc:child=33"
+              else if l < 31 then add "enc:child<31" else add "enc:child>33"
+            | Branch _ -> add "enc:child-branch");
+           go false ch
+         | None -> ()) cs);
+    if is_root then (match n with Leaf _ -> add "enc:root-leaf" | Branch _ -> add "enc:root-branch") in
+  (match t with None -> add "enc:empty" | Some n -> go true n);
+  !tags
+
 let check inp obs =
   let got = if obs = "()" then [] else split_ws obs in
   match split_ws inp with
   | "root" :: v :: opstrs ->
     let ver = ver_of v in
     let has_commit = List.mem "W" opstrs in
-    let opstrs = List.filter (fun s -> s <> "W") opstrs in
+    let has_snapshot = List.mem "S" opstrs in
+    let opstrs = List.filter (fun s -> s <> "W" && s <> "S") opstrs in
     let parsed = List.map parse_op opstrs in
     (* histories at each H *)
     let hist = ref [] and acc = ref [] in
@@ -53,7 +98,9 @@ let check inp obs =
                 (if nkeys = 0 then "final-empty" else if nkeys < 4 then "final-1-3" else "final-4+");
                 (if List.length hist > 1 then "intermediate-hash" else "single-hash");
                 (if has_commit then "with-commit" else "no-commit")]
-               @ (if guard then ["guard-delete-exhausted"] else []) in
+               @ (if has_snapshot then ["with-snapshot"] else [])
+               @ (if guard then ["guard-delete-exhausted"] else [])
+               @ cover_trie ver (run all_ops) in
     { prop_ok = prop; model_eq = eq; nontrivial = (List.length all_ops >= 2);
       finding = (if (not prop) && guard then "delete-exhausted-key" else "-");
       tags = String.concat "," tags;
@@ -91,12 +138,45 @@ let check inp obs =
                 Printf.sprintf "go=%s spec=%s model=%s genesis-hash=%s" (String.concat "," got) s m gh) }
   | _ -> fail "C01: bad input %s" inp
 
+(* vm_compute cross-check of the extraction: the roots of a history recomputed inside Coq (model and,
+   when the driver found the property to hold, specification) and compared with the Go roots *)
+let coq inp obs =
+  match split_ws inp with
+  | "root" :: v :: opstrs when String.length inp < 6000 ->
+    let got = if obs = "()" then [] else split_ws obs in
+    if List.exists (fun g -> g = "err" || g = "panic") got then None else begin
+      let opstrs = List.filter (fun s -> s <> "W" && s <> "S") opstrs in
+      let coq_op = function
+        | Put (k, x) -> Printf.sprintf "Put %s %s" (coq_bytes k) (coq_bytes x)
+        | Del k -> "Del " ^ coq_bytes k in
+      let n = ref 0 and hs = ref [] and ops = ref [] in
+      List.iter (fun s -> match parse_op s with
+        | Some o -> ops := o :: !ops; incr n
+        | None -> hs := !n :: !hs) opstrs;
+      let hs = List.rev !hs and ops = List.rev !ops in
+      if List.length hs <> List.length got then None else begin
+        let verd = check inp obs in
+        let vs = if v = "1" then "V1" else "V0" in
+        let terms = List.map2 (fun k g ->
+          Printf.sprintf "(Bool.eqb (bytes_eqb (root blake2b_256 %s (firstn %d ops)) %s) %s) && (Bool.eqb (bytes_eqb (spec blake2b_256 %s (firstn %d ops)) %s) %s)"
+            vs k (coq_bytes (bytes_of_hex g)) (if verd.model_eq then "true" else "false")
+            vs k (coq_bytes (bytes_of_hex g)) (if verd.prop_ok then "true" else "false")) hs got in
+        (* the per-H expectations are exact only when the whole case agrees or disagrees; render the
+           agreeing cases and the single-hash cases *)
+        if (verd.model_eq && verd.prop_ok) || List.length hs = 1 then
+          Some (Printf.sprintf "let ops := [%s] in %s" (String.concat "; " (List.map coq_op ops)) (String.concat " && " terms))
+        else None
+      end
+    end
+  | _ -> None
+
 (* the genesis states carry a 1 MB value: the list functions of the extracted model need a deep
    stack, so the driver re-executes itself once with the stack limit raised *)
 let () =
   if Sys.getenv_opt "VERIF_BIG_STACK" = None then begin
     let cmd = Printf.sprintf
-      "ulimit -s unlimited 2>/dev/null || ulimit -s 4000000 2>/dev/null; VERIF_BIG_STACK=1 exec %s"
-      (Filename.quote Sys.executable_name) in
+      "ulimit -s unlimited 2>/dev/null || ulimit -s 4000000 2>/dev/null; VERIF_BIG_STACK=1 exec %s %s"
+      (Filename.quote Sys.executable_name)
+      (String.concat " " (List.map Filename.quote (List.tl (Array.to_list Sys.argv)))) in
     exit (Sys.command cmd)
-  end else run_driver check
+  end else run_driver ~coq check
